@@ -12,6 +12,8 @@ Verdict(ev) ==
          [] cs.op = "f_binop" -> IF FrameOpOK(cs.fn, cs.a, cs.b, ev.res) THEN "ok" ELSE "frame_alignment"
          [] cs.op = "fs_binop" -> IF FrameSeriesOpOK(cs.fn, cs.a, cs.b, ev.res) THEN "ok" ELSE "frame_series_alignment"
          [] cs.op = "fsT_binop" -> IF FrameSeriesTOpOK(cs.fn, cs.a, cs.b, ev.res) THEN "ok" ELSE "frame_series_axis1_alignment"
+         [] cs.op = "sf_matmul" -> IF MatmulSFOK(cs.a, cs.b, ev.res) THEN "ok" ELSE "matmul_alignment"
+         [] cs.op = "fs_matmul" -> IF MatmulFSOK(cs.a, cs.b, ev.res) THEN "ok" ELSE "matmul_alignment"
          [] cs.op = "f_scalar" -> IF ScalarOpOK(cs.fn, cs.a, cs.v, ev.res, cs.reflected) THEN "ok" ELSE "scalar"
 Init == l = 1
 Next == /\ l <= Len(Trace)
